@@ -25,6 +25,18 @@ def words(r: random.Random, n: int) -> str:
     return " ".join(r.choice(WORDS) for _ in range(n))
 
 
+PRINTABLE = "".join(chr(c) for c in range(32, 127) if chr(c) not in "\\{}")
+
+
+def ascii_text(r: random.Random) -> str:
+    """Printable ASCII incl. ^ _ >= <= (for cells whose text_convert is off)."""
+    n = r.choice([0, 1, 2, 5, 9, 20])
+    t = "".join(r.choice(PRINTABLE) for _ in range(n))
+    if r.random() < 0.3:
+        t += r.choice([">=", "<=", "^2", "_1", " a>=b ", "x^y_z"])
+    return t
+
+
 def cell_text(r: random.Random, convert_safe: bool = True) -> str:
     k = r.random()
     if k < 0.08:
@@ -52,6 +64,10 @@ def shape_value(r: random.Random, nrow: int, ncol: int, pick, scalar_ok: bool = 
 class DocGen:
     def __init__(self, seed: int):
         self.r = random.Random(seed)
+        self.text_mode = "safe"      # "safe": words only; "ascii": arbitrary printable ASCII (conversion off)
+
+    def cell(self, r):
+        return ascii_text(r) if self.text_mode == "ascii" else cell_text(r)
 
     # ------------------------------------------------------------ data
     def frame(self, nrows: int, ncols: int, grouping: dict | None = None, id_col: bool = True) -> dict:
@@ -75,7 +91,8 @@ class DocGen:
             row = []
             for name, kind in zip(names, kinds, strict=True):
                 if kind == "id":
-                    row.append(f"#{i}#" + (" " + words(r, r.choice([0, 0, 1, 4, 10])) if r.random() < 0.5 else ""))
+                    tail = ascii_text(r) if self.text_mode == "ascii" else words(r, r.choice([0, 0, 1, 4, 10]))
+                    row.append(f"#{i}#" + (" " + tail if r.random() < 0.5 else ""))
                 elif kind == "group":
                     row.append(grouping[name][i])
                 elif kind == "int":
@@ -83,9 +100,9 @@ class DocGen:
                 elif kind == "float":
                     row.append(r.choice([0.5, 1.25, 12.5, 3.0, -0.75, 100.125, None]))
                 elif kind == "strnull":
-                    row.append(None if r.random() < 0.3 else cell_text(r))
+                    row.append(None if r.random() < 0.3 else self.cell(r))
                 else:
-                    row.append(cell_text(r))
+                    row.append(self.cell(r))
             rows.append(row)
         return {"cols": names, "rows": rows}
 
